@@ -74,6 +74,21 @@ class RecV:
         return self.attrs.get("_label") or f"<{self.cls}>"
 
 
+class SetV(list):
+    """A set of terms: a list kept free of duplicates (by normal form), iterated in insertion order."""
+
+    def add_(self, x):
+        if not any(norm(x) == norm(y) for y in self):
+            self.append(x)
+
+    @classmethod
+    def of(cls, items):
+        s = cls()
+        for x in items:
+            s.add_(x)
+        return s
+
+
 class Sym:
     def __init__(self, text):
         self.text = text
@@ -164,6 +179,8 @@ def norm(v):
         return ("rec", id(v))
     if isinstance(v, FuncV):
         return ("function", v.name)
+    if isinstance(v, SetV):
+        return ("set", frozenset(norm(x) for x in v))
     if isinstance(v, (list, tuple)):
         return (type(v).__name__,) + tuple(norm(x) for x in v)
     if isinstance(v, dict):
@@ -172,7 +189,7 @@ def norm(v):
 
 
 SLOTS = ("output_coercer", "input_coercer", "literal_coercer")
-BUILTINS = {"str", "repr", "dict", "set", "partial", "reduce", "reversed", "list", "tuple", "isinstance", "getattr", "hasattr", "enumerate", "zip", "bool", "len", "iter", "next", "callable"}
+BUILTINS = {"str", "repr", "dict", "set", "frozenset", "sorted", "any", "all", "partial", "reduce", "reversed", "list", "tuple", "isinstance", "getattr", "hasattr", "enumerate", "zip", "bool", "len", "iter", "next", "callable"}
 
 
 class Interp:
@@ -288,7 +305,7 @@ class Interp:
             return env.vars["__yields__"] if is_gen else None
         if isinstance(f, Sym) and f.text in self.stubs:
             return self.stubs[f.text](args, kwargs)
-        if isinstance(f, Sym) and f.text in self.interpret:
+        if isinstance(f, Sym) and (f.text in self.interpret or any(p.endswith(".*") and f.text.startswith(p[:-1]) for p in self.interpret)):
             target = self.repo.lookup(f.text)
             if target is not None and hasattr(target, "node") and isinstance(target.node, ast.FunctionDef):
                 sub = Interp(self.repo, target.module, self.fuel, self.classes, self.interpret, self.stubs)
@@ -303,6 +320,51 @@ class Interp:
         raise Unsupported(f"call of {type(f).__name__} at line {getattr(node, 'lineno', '?')}")
 
     def method(self, recv, m, args, kwargs, node):
+        if isinstance(recv, SetV):
+            def has(x):
+                return any(norm(x) == norm(y) for y in recv)
+            if m == "add":
+                recv.add_(args[0])
+                return None
+            if m in ("discard", "remove"):
+                hits = [i for i, y in enumerate(recv) if norm(y) == norm(args[0])]
+                if hits:
+                    del recv[hits[0]]
+                elif m == "remove":
+                    raise PyRaise("KeyError")
+                return None
+            if m == "update":
+                for a in args:
+                    for x in list(a):
+                        recv.add_(x)
+                return None
+            if m == "union":
+                return SetV.of(list(recv) + [x for a in args for x in list(a)])
+            if m in ("intersection", "difference", "intersection_update", "difference_update"):
+                other = [norm(x) for a in args for x in list(a)]
+                keep = [y for y in recv if (norm(y) in other) == m.startswith("intersection")]
+                if m.endswith("_update"):
+                    recv[:] = keep
+                    return None
+                return SetV.of(keep)
+            if m in ("issubset", "issuperset", "isdisjoint"):
+                other = [norm(x) for x in list(args[0])]
+                mine = [norm(y) for y in recv]
+                if m == "issubset":
+                    return all(y in other for y in mine)
+                if m == "issuperset":
+                    return all(x in mine for x in other)
+                return not any(y in other for y in mine)
+            if m == "copy":
+                return SetV.of(recv)
+            if m == "clear":
+                del recv[:]
+                return None
+            if m == "pop":
+                if not recv:
+                    raise PyRaise("KeyError")
+                return list.pop(recv, 0)
+            raise PyRaise("AttributeError", f"set.{m}")
         if isinstance(recv, list):
             if m == "append":
                 recv.append(args[0])
@@ -425,8 +487,16 @@ class Interp:
             d = dict(args[0]) if args else {}
             d.update(kwargs)
             return d
-        if name == "set":
-            return list(args[0]) if args else []
+        if name in ("set", "frozenset"):
+            return SetV.of(list(args[0]) if args else [])
+        if name == "sorted":
+            seq = list(args[0])
+            if kwargs or not all(isinstance(x, (str, int)) for x in seq):
+                raise Unsupported("sorted() of abstract values")
+            return sorted(seq)
+        if name in ("any", "all"):
+            ts = [self.truth(x) for x in list(args[0])]
+            return any(ts) if name == "any" else all(ts)
         if name == "reversed":
             return list(reversed(list(args[0])))
         if name in ("list", "tuple"):
@@ -525,8 +595,17 @@ class Interp:
             if isinstance(v, int) and not isinstance(v, bool):
                 return -v if isinstance(e.op, ast.USub) else v
             raise Unsupported("arithmetic on an abstract value")
+        if isinstance(e, ast.BinOp) and isinstance(e.op, (ast.BitOr, ast.BitAnd)):
+            a, b = self.eval(e.left, env), self.eval(e.right, env)
+            if isinstance(a, SetV) and isinstance(b, SetV):
+                return self.method(a, "union" if isinstance(e.op, ast.BitOr) else "intersection", [b], {}, e)
+            raise Unsupported("bit operation on abstract values")
         if isinstance(e, ast.BinOp) and isinstance(e.op, (ast.Add, ast.Sub)):
             a, b = self.eval(e.left, env), self.eval(e.right, env)
+            if isinstance(e.op, ast.Sub) and isinstance(a, SetV) and isinstance(b, SetV):
+                return self.method(a, "difference", [b], {}, e)
+            if isinstance(e.op, ast.Add) and (isinstance(a, SetV) or isinstance(b, SetV)):
+                raise PyRaise("TypeError", "set + ...")
             if isinstance(a, int) and isinstance(b, int) and not isinstance(a, bool) and not isinstance(b, bool):
                 return a + b if isinstance(e.op, ast.Add) else a - b
             if isinstance(e.op, ast.Add) and isinstance(a, str) and isinstance(b, str):
@@ -563,6 +642,10 @@ class Interp:
             return True
         if isinstance(e, ast.Lambda):
             return LambdaV(e, env)
+        if isinstance(e, ast.Set):
+            return SetV.of([self.eval(x, env) for x in e.elts])
+        if isinstance(e, ast.SetComp):
+            return SetV.of(self.eval(ast.ListComp(elt=e.elt, generators=e.generators), env))
         if isinstance(e, (ast.List, ast.Tuple)):
             out = []
             for x in e.elts:
@@ -751,7 +834,11 @@ class Interp:
         elif isinstance(s, ast.AugAssign):
             cur = self.eval(s.target, env)
             v = self.eval(s.value, env)
-            if isinstance(s.op, ast.Add) and isinstance(cur, list):
+            if isinstance(cur, SetV) and isinstance(s.op, (ast.BitOr, ast.BitAnd, ast.Sub)) and isinstance(v, SetV):
+                self.method(cur, {ast.BitOr: "update", ast.BitAnd: "intersection_update", ast.Sub: "difference_update"}[type(s.op)], [v], {}, s)
+            elif isinstance(s.op, ast.Add) and isinstance(cur, SetV):
+                raise PyRaise("TypeError", "set += ...")
+            elif isinstance(s.op, ast.Add) and isinstance(cur, list):
                 cur.extend(list(v))
             elif isinstance(s.op, ast.Add) and isinstance(cur, (int, tuple, str)):
                 self.assign(s.target, cur + v, env)
